@@ -149,7 +149,8 @@ func CheckInvariants(a *App, st *AppState, c InvCtx) []core.Violation {
 	// unstaking queue
 	queued := map[string]string{} // addr -> time key
 	for _, kv := range st.UnstakeQ {
-		for _, ad := range a.decodeQueue(kv.V) {
+		ads, _ := a.decodeQueue(kv.V)
+		for _, ad := range ads {
 			queued[hx(ad)] = string(kv.K)
 		}
 	}
@@ -157,45 +158,50 @@ func CheckInvariants(a *App, st *AppState, c InvCtx) []core.Violation {
 	// slot, a duplicate) would release it at another time or twice
 	entries := map[string][]string{}
 	for _, kv := range st.UnstakeQ {
-		for _, ad := range a.decodeQueue(kv.V) {
+		ads, _ := a.decodeQueue(kv.V)
+		for _, ad := range ads {
 			entries[hx(ad)] = append(entries[hx(ad)], string(kv.K))
 		}
 	}
-	// ... and nobody else is queued: an entry for a validator that is not unstaking (any more) would release
-	// it, or whoever re-uses the address, at a time nobody asked for
-	qaddrs := make([]string, 0, len(entries))
-	for ah := range entries {
-		qaddrs = append(qaddrs, ah)
-	}
-	sort.Strings(qaddrs)
-	for _, ah := range qaddrs {
-		v, ok := st.Vals[ah]
-		if !ok || v.Status != sdk.Unstaking {
-			status := "no-record"
-			if ok {
-				status = v.Status.String()
+	// (if the queue is stored in a form this harness does not know, what it holds cannot be said: the queue
+	// invariants are skipped, the payout-on-time oracles on validator records and balances still apply)
+	if !st.QueueOpaque {
+		// ... and nobody else is queued: an entry for a validator that is not unstaking (any more) would release
+		// it, or whoever re-uses the address, at a time nobody asked for
+		qaddrs := make([]string, 0, len(entries))
+		for ah := range entries {
+			qaddrs = append(qaddrs, ah)
+		}
+		sort.Strings(qaddrs)
+		for _, ah := range qaddrs {
+			v, ok := st.Vals[ah]
+			if !ok || v.Status != sdk.Unstaking {
+				status := "no-record"
+				if ok {
+					status = v.Status.String()
+				}
+				rep("C06/q-stale/"+ah, status, viol("C06", "unstaking-queue", c.Step, map[string]string{"phase": c.Phase, "what": "entry-not-unstaking", "status": status},
+					"the unstaking queue lists %s, which is not an unstaking validator (%s)", ah, status))
 			}
-			rep("C06/q-stale/"+ah, status, viol("C06", "unstaking-queue", c.Step, map[string]string{"phase": c.Phase, "what": "entry-not-unstaking", "status": status},
-				"the unstaking queue lists %s, which is not an unstaking validator (%s)", ah, status))
 		}
-	}
-	for _, ah := range addrs {
-		v := st.Vals[ah]
-		if v.Status == sdk.Unstaking && len(entries[ah]) > 1 {
-			rep("C06/q-multi/"+ah, fmt.Sprint(len(entries[ah])), viol("C06", "unstaking-queue", c.Step, map[string]string{"phase": c.Phase, "what": "queued-more-than-once"},
-				"unstaking validator %s has %d entries in the unstaking queue", ah, len(entries[ah])))
+		for _, ah := range addrs {
+			v := st.Vals[ah]
+			if v.Status == sdk.Unstaking && len(entries[ah]) > 1 {
+				rep("C06/q-multi/"+ah, fmt.Sprint(len(entries[ah])), viol("C06", "unstaking-queue", c.Step, map[string]string{"phase": c.Phase, "what": "queued-more-than-once"},
+					"unstaking validator %s has %d entries in the unstaking queue", ah, len(entries[ah])))
+			}
 		}
-	}
-	for _, ah := range addrs {
-		v := st.Vals[ah]
-		if v.Status == sdk.Unstaking {
-			k, ok := queued[ah]
-			if !ok {
-				rep("C06/q-missing/"+ah, "", viol("C06", "unstaking-queue", c.Step, map[string]string{"phase": c.Phase, "what": "not-queued"},
-					"unstaking validator %s is not in the unstaking queue", ah))
-			} else if k != string(posTypes.KeyForUnstakingValidators(v.UnstakingCompletionTime)) {
-				rep("C06/q-time/"+ah, "", viol("C06", "unstaking-queue", c.Step, map[string]string{"phase": c.Phase, "what": "wrong-time"},
-					"unstaking validator %s is queued under a time other than its completion time %s", ah, v.UnstakingCompletionTime))
+		for _, ah := range addrs {
+			v := st.Vals[ah]
+			if v.Status == sdk.Unstaking {
+				k, ok := queued[ah]
+				if !ok {
+					rep("C06/q-missing/"+ah, "", viol("C06", "unstaking-queue", c.Step, map[string]string{"phase": c.Phase, "what": "not-queued"},
+						"unstaking validator %s is not in the unstaking queue", ah))
+				} else if k != string(posTypes.KeyForUnstakingValidators(v.UnstakingCompletionTime)) {
+					rep("C06/q-time/"+ah, "", viol("C06", "unstaking-queue", c.Step, map[string]string{"phase": c.Phase, "what": "wrong-time"},
+						"unstaking validator %s is queued under a time other than its completion time %s", ah, v.UnstakingCompletionTime))
+				}
 			}
 		}
 	}
@@ -227,8 +233,8 @@ func CheckInvariants(a *App, st *AppState, c InvCtx) []core.Violation {
 	}
 	// ---- C10: award queue drained by BeginBlock, fee collector emptied
 	if c.Phase == "BeginBlock" {
-		if len(st.Awards) != 0 {
-			out = append(out, viol("C10", "award-queue-drained", c.Step, ph, "%d award entries remain after BeginBlock", len(st.Awards)))
+		if st.AwardCount != 0 {
+			out = append(out, viol("C10", "award-queue-drained", c.Step, ph, "%d award entries remain after BeginBlock", st.AwardCount))
 		}
 		if fc := st.Balances[moduleAddrHex("fee_collector")]; c.Height > 1 && fc != nil && fc.Sign() != 0 {
 			out = append(out, viol("C10", "fee-collector-emptied", c.Step, ph, "fee collector still holds %s after BeginBlock", fc))
